@@ -140,4 +140,15 @@ var props = map[string]propCfg{
 		},
 		QuickSecs: 150, ThorSecs: 2400,
 	},
+	"C15": {
+		Scenarios: []scenCfg{
+			{Name: "c15", Quick: 1500, Thorough: 120000, Batch: 40},
+		},
+		Rule: "c15: one evaluation = one simulated interactive session (layouts default/reverse/reverse-list, info default/inline/right/hidden, --header, --header-lines, --multi, unicode or ASCII glyphs, 14..100 columns x 6..36 rows with resizes) under a seeded history of typing, navigation and selection actions; after every action the bytes written by the real renderer, interpreted by the VT emulator, are parsed structurally and compared with the state: prompt row = prompt + query (or a window of it), info row counters = matched/total (selected), each list row in layout order = pointer glyph on exactly the current row, marker glyph on exactly the selected rows, the complete line when it fits or a piece of it with the ellipsis and within the width, empty rows beyond the results (stale rows from incremental redraw), header outside the list rows, nothing written past the right margin; distinct = distinct event-log hash; non-trivial = the list was not empty",
+		RealStub: map[string][]string{
+			"real": {"Terminal rendering (printPrompt/printInfo/printHeader/printList/printItem/printHighlighted, prevLines incremental redraw)", "resizeWindows", "LightRenderer/LightWindow drawing primitives", "Terminal.Loop"},
+			"stub": {"tty device + VT emulator (own width table)", "stdin", "clock", "goroutine scheduler"},
+		},
+		QuickSecs: 150, ThorSecs: 2400,
+	},
 }
